@@ -200,6 +200,11 @@ func c06Sub(w *W) {
 				rc = ctxs[(a/8)%len(ctxs)]
 				rtopic = c6Topics[w.Choose(simrt.SProg, len(c6Topics))]
 				runsub = w.Choose(simrt.SProg, 2) == 0
+				if !runsub && len(rc.subs) > 0 && w.Choose(simrt.SProg, 4) != 0 {
+					// (mostly a topic the context really has: that Unsubscribe
+					// rebuilds the queue the racing publication is heading for)
+					rtopic = rc.subs[w.Choose(simrt.SProg, len(rc.subs))]
+				}
 				w.Probe("subscribe-races-publish")
 			}
 			w.Op("pub%d publishes %q (race=%v)", (a/4)%len(pubs), bodies, race)
@@ -219,6 +224,12 @@ func c06Sub(w *W) {
 				name := mangos.OptionUnsubscribe
 				if runsub {
 					name = mangos.OptionSubscribe
+				}
+				// (the option call starts somewhere along the publication's way
+				// through the publisher, the connection and the subscriber's
+				// receiver: the main task lets a drawn number of steps pass first)
+				for k := w.Choose(simrt.SProg, 120); k > 0; k-- {
+					simrt.Yield()
 				}
 				rcall := w.Do("race-"+name, func() (interface{}, error) { return nil, setopt(rc, name, rtopic) })
 				w.Settle()
